@@ -1345,6 +1345,31 @@ func planC17sched(g *Gen, tier string) GenOutput {
 			bump(res.Stats, fmt.Sprintf("perm rows=%d", n))
 		}
 	}
+	// a function whose result has another shape for some rows (nil where the row starts with nil, a slice
+	// elsewhere): every permutation of 2..4 rows, so that a row of either shape completes first
+	mkNil := func(n int, nilAt int) Frame {
+		f := mk(n)
+		f.Cols[0].Data[nilAt] = NilCell()
+		if n > 2 {
+			f.Cols[0].Data[(nilAt+2)%n] = NilCell()
+		}
+		return f
+	}
+	for n := 2; n <= scale(tier, 4, 5); n++ {
+		for pi, p := range perms(n) {
+			perm := p
+			runOne(fmt.Sprintf("mixed-result-shapes rows=%d", n), mkNil(n, pi%n), 14, func(w []int, k int) int {
+				want := perm[k]
+				for _, r := range w {
+					if r == want {
+						return r
+					}
+				}
+				return w[0]
+			})
+			bump(res.Stats, fmt.Sprintf("mixed-shapes rows=%d", n))
+		}
+	}
 	// more rows than workers: a random valid order (any waiting row may complete next)
 	nbig := scale(tier, 60, 600)
 	for i := 0; i < nbig; i++ {
